@@ -191,8 +191,12 @@ class DocBuilder:
                 if self.o["xml"] and is_label:
                     v = g.string() if g.chance(0.6) else Literal(g.string(), langtag=g.choice(["en", "fr"]))
                 elif is_type and g.chance(self.o["subtypes"]):
-                    v = PROV[g.choice(["Person", "Organization", "SoftwareAgent", "Plan", "Collection", "EmptyCollection",
-                                       "Revision", "Quotation", "PrimarySource", "Bundle"])]
+                    fam = g.choice([["Person", "Organization", "SoftwareAgent"], ["Plan", "Collection", "EmptyCollection", "Bundle"],
+                                    ["Revision", "Quotation", "PrimarySource"]])
+                    v = PROV[g.choice(fam)]
+                    if g.chance(0.4):
+                        # a second subtype of the same base class on the same record (only one can name the XML element)
+                        out.append((name, PROV[g.choice(fam)]))
                 else:
                     v = g.value(self.scope_namespaces(c), self.o["value_kinds"])
                 out.append((name, v))
@@ -224,6 +228,11 @@ class DocBuilder:
         path = g.choice(paths)
         elem = kind in ELEMENT_KINDS
         ident = self.ident(c) if (elem or not g.chance(self.o["anon"])) else None
+        if kind == "Membership" and ident is not None:
+            # two identified memberships under one identifier are merged by unified() through the library's multi-value
+            # "collection" exception of add_attributes: the merged record has several values per formal argument and which one
+            # is "the" endpoint is decided by the iteration order of a Python set. No property defines that case; it is avoided
+            ident = self.fresh_name(c)
         if elem and g.chance(self.o["malformed"] / 2):
             ident = g.choice([None, "nope:x"])
         args = self.formal_args(c, kind)
